@@ -163,7 +163,8 @@ def zoo_texts():
 FRAGMENTS = ["[1 TO 5]", "{1 TO *}", "[a TO b]", ":x", ":>5", "f:", "f:>", "f:>=", "f:[1 TO]", "f:[TO 5]", "f:[1 5]", "f:[1 TO 5", "f:1 TO 5]", "TO", "f:(", "()", "f:()", "~2", "^2", "~",
              "a~b", "a^b", "a~-1", "a^-1", "a~1.5", "a:b:c", "(a:b):c", "(a b):c", "a:[b:c TO 5]", "a:[(b c) TO d]", "a:[NOT b TO c]", "a:[1 TO (b OR c)]", "a:(b)~", "a:b~", "a:b:c~",
              "(a:b):>=5~3", "a AND", "AND a", "a OR OR b", "NOT", "+", "a +", "a -", "a:>=(b:c)", "a:<(b:[1 TO 2])", "a:(b:c:d)", "a:>(b c)", "a:(b OR c:d)", "a:(b^2 OR c)",
-             "a:(b~ OR c)", "a:(b OR c)^2", "a:(NOT b OR c)", "a:(+b OR c)", "a:(b* OR c)", "a:(\"b*\" OR c)", "a:(/r/ OR c)", "a:(1 OR 1)", "a:((b OR c) OR d)", "a:(b OR (c OR d))"]
+             "a:(b~ OR c)", "a:(b OR c)^2", "a:(NOT b OR c)", "a:(+b OR c)", "a:(b* OR c)", "a:(\"b*\" OR c)", "a:(/r/ OR c)", "a:(1 OR 1)", "a:((b OR c) OR d)", "a:(b OR (c OR d))",
+             "a:(7 OR \"7\" OR \"x y\")", "a:(\"7\" OR 7 OR 7.0)", "a:(1.5 OR \"1.5\")", "a:(b OR \"b\")", "a:(b OR b OR \"b c\")", "a:(7 OR 07 OR 7.0)"]
 CONTEXTS = ["%s", "x:y AND %s", "%s AND x:y", "NOT %s", "-%s", "+%s", "(%s)", "x:y OR %s", "(x:y OR %s)^2", "%s~", "%s^3", "g:(%s)", "x:y %s", "%s x:y", "x:y AND (z:w OR NOT %s)"]
 
 
